@@ -24,15 +24,27 @@ RULE = ("A case is a history over one fake node reached through the real Session
         "orphan threshold next to live/never-answered ones (replacement with the old connection set aside), the "
         "'v1v2trash' part with a burst that grows a HostConnectionPool beyond its core size followed by the 10 s trash "
         "interval, the 'v3refuse' part with a replacement (threshold reached or connection failed) whose first connect "
-        "attempts are refused and slow while further borrows arrive before the retry completes.  The history ends with every held request answered, "
+        "attempts are refused and slow while further borrows arrive before the retry completes, the 'usewindow' part (v1-v4) with "
+        "a session keyspace set and a server that holds USE requests (event use_hold 1/0) followed by something that "
+        "opens a connection (a burst growing a HostConnectionPool, a failed connection, orphans past the threshold, a "
+        "pool renewal): the new connection stays inside set_keyspace_blocking while Session.shutdown, renewals, failures, "
+        "further borrows and keyspace switches happen, until the USE is answered by an answer event (SET_KEYSPACE, or "
+        "close/reset of the connection), by the server catching up, or at the latest before the final Cluster.shutdown "
+        "(which waits for the executor; a USE is never left unanswered for good).  The history ends with every held request answered, "
         "Session/Cluster shutdown and enough virtual time for every pending connect to finish.  Non-trivial: a pool "
         "opened a connection after its first ones (replacement / growth) or set one aside (trash) before it was shut "
-        "down, or a borrow was attempted on a shut-down pool.  Distinct by case digest.")
+        "down, or a borrow was attempted on a shut-down pool (holding a USE alone does not make a case non-trivial; "
+        "labels has:use-held* and has:shutdown-during-keyspace-selection-of-new-connection count how often the window "
+        "was open and how often a pool shutdown fell into it, per pool class and opening code path).  Distinct by "
+        "case digest.")
 ASSUMPTIONS = ["network, clock, executor and event loop are simulated (sim/); Cluster, Session, pools, connections, "
                "ResponseFuture, policies are the real classes",
                "send_msg/close of the connection class and pool.shutdown are wrapped for observation only",
                "a connection 'the pool opened' = a connection constructed with that pool's on_orphaned_stream_released "
                "callback (every connection_factory call in pool.py passes it)",
+               "a server may answer USE arbitrarily late but does answer it (or fails the connection): held USE requests "
+               "are released by the history or, at the latest, before the final Cluster.shutdown, because "
+               "set_keyspace_blocking has no timeout and Cluster.shutdown joins the executor",
                "pre-emption only at blocking operations ('blocking' parts) / additionally at every lock operation and "
                "clock read ('locks' part)"]
 
@@ -114,6 +126,71 @@ def _st(c):
     return "defunct" if c.is_defunct else ("closed" if c.is_closed else "open")
 
 
+def _is_use(req):
+    return req.get("op") == "QUERY" and str(req.get("query") or "").startswith("USE ")
+
+
+class C12Machine(SP.Machine):
+    """adds a server that is slow to answer USE: while the switch is on (event ["use_hold", 1]) every USE that
+    arrives on a connection other than the control connection is held like a user query, so that the keyspace
+    selection of a freshly opened connection (set_keyspace_blocking in both pools' __init__, HostConnection._replace
+    and HostConnectionPool._add_conn_if_under_max) and Session.set_keyspace span further events of the history.
+    A held USE is answered by an "answer" event that picks it (SET_KEYSPACE result whatever the answer kind, except
+    close/reset/eof which fail the connection instead), by ["use_hold", 0] (the server catches up with all of them)
+    or by the drain at the end of the history -- never left unanswered for good."""
+
+    def __init__(self, *a, **kw):
+        SP.Machine.__init__(self, *a, **kw)
+        self.use_hold = False
+        self.use_log = []          # {"conn", "req", "t", "t_rel"} of every USE the server held
+
+    def build(self, *a, **kw):
+        SP.Machine.build(self, *a, **kw)
+        inner = self.node.on_request
+        m = self
+
+        def on_request(node, conn, req):
+            if m.use_hold and _is_use(req) and not conn.is_control_connection:
+                m.use_log.append({"conn": conn, "req": req, "t": m.sim.world.now, "t_rel": None})
+                return ("hold",)
+            return inner(node, conn, req)
+        self.node.on_request = on_request
+
+    def _use_released(self, req):
+        for u in self.use_log:
+            if u["req"] is req and u["t_rel"] is None:
+                u["t_rel"] = self.sim.world.now
+
+    def answer_req(self, node, conn, req, kind):
+        if not _is_use(req):
+            return SP.Machine.answer_req(self, node, conn, req, kind)
+        self._use_released(req)
+        if kind in ("close", "reset", "eof"):
+            return SP.Machine.answer_req(self, node, conn, req, kind)
+        for i, (_c, r) in enumerate(node.held):
+            if r is req:
+                node.release(i)
+                break
+        return None
+
+    def finish(self):
+        # Cluster.shutdown waits for its executor, i.e. for a task that sits in a keyspace selection: a server that
+        # never answers it would hang any client.  The server catches up before the final shutdown; shutdowns that
+        # overlap a held USE are the mid-history ones (Session.shutdown / pool renewal do not wait for the executor)
+        self.apply(["use_hold", 0])
+        return SP.Machine.finish(self)
+
+    def apply(self, ev):
+        if ev[0] == "use_hold":
+            self.use_hold = bool(ev[1])
+            if not self.use_hold:
+                for (node, conn, req) in self.held():
+                    if _is_use(req):
+                        self.answer_req(node, conn, req, "rows")
+            return
+        return SP.Machine.apply(self, ev)
+
+
 def interpret(case, ctx):
     sim = U.Sim(tape=case["tape"], granularity=case["gran"])
     try:
@@ -125,7 +202,7 @@ def interpret(case, ctx):
 
 
 def _run(case, ctx, sim):
-    m = SP.Machine(case, ctx, sim, PID)
+    m = C12Machine(case, ctx, sim, PID)
     obs = C12Observer(ctx)
     m.observers.append(obs)
     with ctx.driver(["C12.setup"]):
@@ -158,6 +235,22 @@ def _run(case, ctx, sim):
         ctx.label("has:connect-in-progress-at-shutdown")
     if m.dead_borrows:
         ctx.label("has:borrow-after-shutdown")
+    if m.use_log:
+        ctx.label("has:use-held")
+        fresh = [u for u in m.use_log if u["conn"].creator != "pool.__init__" and m.pool_of(u["conn"]) is not None]
+        if fresh:
+            ctx.label("has:use-held-on-connection-opened-later")
+        if any(u["conn"].creator == "pool.__init__" and not u["conn"].seen_installed for u in m.use_log):
+            ctx.label("has:use-held-in-pool-constructor")
+        during = set()
+        for u in m.use_log:
+            c = u["conn"]
+            for s in m.shutdowns.values():
+                if (m.pool_of(c) is s["pool"] and c not in s["installed_before"] and
+                        u["t"] <= s["t"] and (u["t_rel"] is None or s["t"] <= u["t_rel"])):
+                    during.add("shutdown-during-keyspace-selection:" + type(s["pool"]).__name__ + ":" + c.creator)
+        if during:
+            ctx.label("has:shutdown-during-keyspace-selection-of-new-connection", *sorted(during))
     ctx.nontrivial(bool(later) or obs.trash_seen or bool(m.dead_borrows))
 
 
@@ -253,6 +346,54 @@ def s_v3refuse():
     return build()
 
 
+GROW_CFGS = [{"core": 1, "max": 2, "min_req": 1, "max_req": 2},
+             {"core": 1, "max": 3, "min_req": 1, "max_req": 2},
+             {"core": 1, "max": 3, "min_req": 0, "max_req": 1},
+             {"core": 2, "max": 3, "min_req": 1, "max_req": 2}]
+
+
+def s_usewindow():
+    """a session keyspace is set and the server has become slow to answer USE: whatever opens a connection next
+    (HostConnectionPool growth under a burst, replacement after a failure or past the orphan threshold, a renewed
+    pool's constructor) stays inside its keyspace selection while the history goes on -- shutdown, renewal,
+    failures, further borrows -- until the USE is answered (by an answer event, by the server catching up, or by
+    the final drain)"""
+    tail = st.one_of(
+        st.tuples(st.just("send"), st.sampled_from([0, 0, 3, 2])),
+        st.tuples(st.just("answer"), st.integers(0, 7), st.sampled_from(["rows", "rows", "void", "drop", "overloaded",
+                                                                         "close", "reset"])),
+        st.tuples(st.just("advance"), st.sampled_from([0.05, 0.35, 1.1, 6.0])),
+        st.tuples(st.just("session_shutdown")),
+        st.tuples(st.just("session_shutdown")),
+        st.tuples(st.just("renew")),
+        st.tuples(st.just("kill"), st.integers(0, 2), st.sampled_from(["close", "reset", "eof"])),
+        st.tuples(st.just("use_hold"), st.sampled_from([0, 0, 1])),
+        st.tuples(st.just("use"), st.sampled_from([0, 1])),
+        st.tuples(st.just("borrow_dead"), st.integers(0, 2)),
+    )
+
+    @st.composite
+    def build(draw):
+        case = draw(SP.s_case(st, "c12", "blocking", [1, 2, 2, 2, 3, 4], mifs=(4, 5, 8), thrs=(1, 2, 100),
+                              extra={"events": st.just([]), "poolcfg": st.sampled_from(GROW_CFGS),
+                                     "delay": st.sampled_from([0.0, 0.0, 0.2])}))
+        ev = [["use", draw(st.sampled_from([0, 1]))], ["use_hold", 1]]
+        trig = draw(st.sampled_from(["burst", "burst", "burst", "kill", "renew", "orphans"]))
+        if trig == "burst":
+            ev += [["burst", draw(st.integers(3, 7)), draw(st.sampled_from([3, 3, 0]))]]
+        elif trig == "kill":
+            ev += [["send", 3]] * draw(st.integers(0, 2))
+            ev += [["kill", 0, draw(st.sampled_from(["close", "reset", "eof"]))], ["advance", 0.75], ["send", 3]]
+        elif trig == "renew":
+            ev += [["send", 3]] * draw(st.integers(0, 2)) + [["renew"]]
+        else:
+            ev += [["send", 0]] * draw(st.integers(1, 3)) + [["advance", 0.35], ["send", 3]]
+        ev += [list(e) for e in draw(st.lists(tail, min_size=1, max_size=10))]
+        case["events"] = ev
+        return case
+    return build()
+
+
 def parts(tier):
     return [
         hyp_part("v3plus", lambda: s_case("blocking", [3, 4, 4, 5]), interpret, tier, quick=110, thorough=1500,
@@ -262,6 +403,7 @@ def parts(tier):
         hyp_part("v3trash", s_v3trash, interpret, tier, quick=80, thorough=800, quick_shards=1, thorough_shards=2),
         hyp_part("v3refuse", s_v3refuse, interpret, tier, quick=100, thorough=1000, quick_shards=1, thorough_shards=2),
         hyp_part("v1v2trash", s_trash, interpret, tier, quick=80, thorough=800, quick_shards=1, thorough_shards=2),
+        hyp_part("usewindow", s_usewindow, interpret, tier, quick=90, thorough=900, quick_shards=1, thorough_shards=2),
         hyp_part("locks", lambda: s_case("locks", [2, 3, 4, 4, 5], mifs=MIFS_LOCKS), interpret, tier, quick=50, thorough=700,
                  quick_shards=1, thorough_shards=3),
     ]
